@@ -424,8 +424,15 @@ def replay_ivector(ck, em, scn, trees, reported, outcomes):
     dim_t = int(rs.randint(1, 3))
     scn["dim_t"] = dim_t
 
+    # every second scenario with a configured variance floor high enough to be active (a quarter of the way up the
+    # UBM's variances): the M-step on the bag must honour the estimator's own options like the one on the list
+    kw = {}
+    if seed % 2:
+        kw["variance_floor"] = float(np.quantile(np.asarray(ubm.variances), 0.25))
+        scn["variance_floor"] = kw["variance_floor"]
+
     def machine():
-        return em.IVectorMachine(ubm=ubm, dim_t=dim_t, max_iterations=iters, update_sigma=scn["update_sigma"])
+        return em.IVectorMachine(ubm=ubm, dim_t=dim_t, max_iterations=iters, update_sigma=scn["update_sigma"], **kw)
 
     def fit_list():
         np.random.seed(seed % (2 ** 31))
